@@ -507,6 +507,16 @@ func (fr *frame) eval1(v ssa.Value) Val {
 				if n, ok := fr.in.PathBind["len("+it.S+")"]; ok && n.K == KInt && n.I.Sign() == 0 {
 					return Val{K: KTuple, Elems: []Val{boolVal(false), top, top}}
 				}
+				// a map made by the evaluated code itself that holds no entry or
+				// exactly one (so that the order of iteration cannot matter)
+				if fr.pathMode && strings.Contains(it.S, "#") {
+					if keys, ok := fr.freshMapKeys(it.S); ok && len(keys) <= 1 {
+						if _, started := fr.iterKeys[rg]; !started {
+							fr.iterKeys[rg] = keys
+						}
+						return fr.nextKey(x, it.S, mt.Elem())
+					}
+				}
 			}
 		}
 		if _, isRange := x.Iter.(*ssa.Range); isRange && fr.pathMode && x.IsString && it.K == KStr && !it.Dep {
